@@ -452,7 +452,8 @@ theorem nxCTNAT_layout (v : V) (bs : Bytes) (v' : V) (hm : NXActionCTNAT.marshal
 /-- NXActionCTNAT, complete shape: the 10-byte Nicira header, two pad bytes, flags, range_present, then exactly the
     ranges that are set, in presence-bit order (IPv4 min, IPv4 max, IPv6 min, IPv6 max, proto min, proto max), each in
     its width (4 / 4 / 16 / 16 / 2 / 2), then zero padding up to the (rounded) length — provided the stored length
-    covers them (it does for every action built with the setters, each of which adds its width to Length) -/
+    covers them (it does for every action built with the setters, each of which stores `unpaddedLen()` = 16 + the widths
+    of the ranges present: `C03c.nat_history_length`) -/
 theorem nxCTNAT_ranges (h pad : V) (fl rp : Nat) (v4a v4b v6a v6b : Bytes) (pmin pmax : V) (bs : Bytes) (v' : V)
     (hm : NXActionCTNAT.marshalM (.obj "NXActionCTNAT" [h, pad, .num fl, .num rp, .bytes v4a, .bytes v4b, .bytes v6a,
       .bytes v6b, pmin, pmax]) = .ok (bs, v'))
